@@ -24,6 +24,9 @@ for f in sorted(glob.glob('/verif/seeded/C*/meta.json')):
             first = h
             break
     fdet = first.get('detected_by') or []
+    if rnd(m['seed']) == 1 and m.get('first_detected_by') is not None:
+        # round 1 predates the history field: its first evaluation is kept in first_detected_by
+        fdet = m.get('first_detected_by') or []
     frozen = 'frozen' in (first.get('checks_from') or '')
     final_is_first = not hist
     rows.append(dict(seed=m['seed'], prop=m['property'], ok='yes' if ok else 'NO', first=fdet, frozen=frozen, final=det, own=m['property'] in det,
